@@ -269,11 +269,25 @@ func main() {
 			h := &handler{Handler: rig.NewHandler()}
 			env, _ := rig.StartWith("mem", *proto, verifrpc.NewFStoreProcessor(h))
 			tr, _, _ := env.ClientTransport()
-			for _, method := range []string{"add", "ping(inherited)"} {
-				isStr := method != "add"
+			for _, method := range []string{"add", "ping(inherited)", "add(list reused)", "ping(inherited)(list reused)"} {
+				isStr := !strings.HasPrefix(method, "add")
 				ctor := build(c.Ctor, 1, lg, 1, isStr)
 				prov := build(c.Prov, 1+len(c.Ctor), lg, 1, isStr)
-				cl := verifrpc.NewFStoreClient(frugal.NewFServiceProvider(tr, pf, prov...), ctor...)
+				var cl *verifrpc.FStoreClient
+				if strings.HasSuffix(method, "(list reused)") {
+					// Middleware!ChainIsAValue: the caller's list has spare capacity, is handed to a second client whose
+					// provider carries other middleware, and is overwritten afterwards - the first client's chain stays
+					shared := make([]frugal.ServiceMiddleware, len(ctor), len(ctor)+8)
+					copy(shared, ctor)
+					cl = verifrpc.NewFStoreClient(frugal.NewFServiceProvider(tr, pf, prov...), shared...)
+					decoy := mw(90, "obs", lg, 1, isStr)
+					_ = verifrpc.NewFStoreClient(frugal.NewFServiceProvider(tr, pf, decoy, decoy), shared...)
+					for i := range shared {
+						shared[i] = decoy
+					}
+				} else {
+					cl = verifrpc.NewFStoreClient(frugal.NewFServiceProvider(tr, pf, prov...), ctor...)
+				}
 				var r int32
 				var cerr error
 				if isStr {
